@@ -271,6 +271,10 @@ func longUniqueModel(r *rand.Rand) []any {
 		}
 	}
 	families := [][]any{{nil, false, "\x00"}, {true, "\x01"}, {[]any{}, map[string]any{}}, {[]any{"a", "b"}, []any{"ab", ""}, []any{"", "ab"}}, {map[string]any{"a": "bc"}, map[string]any{"ab": "c"}}}
+	// seam colliders for ANY separator byte a hasher might put between strings: ["a"+c, "b"] / ["a", c+"b"], {"a"+c: "b"} / {"a": c+"b"}
+	seam := string(rune(r.IntN(33)))
+	families = append(families, []any{[]any{"a" + seam, "b"}, []any{"a", seam + "b"}}, []any{map[string]any{"a" + seam: "b"}, map[string]any{"a": seam + "b"}},
+		[]any{[]any{"a" + seam, "b"}, []any{"a", seam + "b"}}, []any{map[string]any{"a" + seam: "b"}, map[string]any{"a": seam + "b"}})
 	fam := gen.Pick(r, families)
 	pos := r.Perm(n)
 	k := 0
@@ -284,6 +288,18 @@ func longUniqueModel(r *rand.Rand) []any {
 		src := gen.Pick(r, []any{fam[0], fam[len(fam)-1], model[pos[n-1]]})
 		model[pos[k]] = gen.Clone(src)
 		model[pos[k+1]] = gen.Clone(src)
+	}
+	if r.IntN(4) == 0 {
+		// the shortest arrangement that separates "a bucket per hash" from "the last index per hash": X, Y, X with X and Y
+		// unequal colliders (the duplicate pair has the collider between its members)
+		model = []any{gen.Clone(fam[0]), gen.Clone(fam[len(fam)-1]), gen.Clone(fam[0])}
+		if r.IntN(2) == 0 {
+			model = append(model, json.Number("7"))
+		}
+		r.Shuffle(len(model), func(i, j int) { model[i], model[j] = model[j], model[i] })
+		if r.IntN(2) == 0 {
+			model = []any{gen.Clone(fam[0]), gen.Clone(fam[len(fam)-1]), gen.Clone(fam[0])}
+		}
 	}
 	return model
 }
